@@ -32,7 +32,7 @@ WORKERS = {"quick": 8, "thorough": 16}
 BUDGET_S = {"quick": 300, "thorough": 1500}
 THOROUGH_ROUNDS = 8
 
-FAMILIES = ["randn", "ties", "all_equal", "huge", "single_feasible", "tail_masked", "peaked", "tiny_gaps", "neg_huge"]
+FAMILIES = ["randn", "ties", "all_equal", "huge", "single_feasible", "tail_masked", "peaked", "tiny_gaps", "neg_huge", "masked_huge"]
 TS = [0.05, 0.25, 0.5, 1.0, 2.0, 4.0, 10.0, 0.7, 1.7]
 KS = [0, 1, 2, 3, "N", "N+5"]
 PS = [0.0, 1e-8, 1e-7, 1e-6, 1e-3, 0.1, 0.5, 0.9, 0.999, 1.0]
@@ -87,6 +87,8 @@ def make_logits(case):
         x[:, 0] += 30
     elif fam == "tiny_gaps":
         x = torch.randint(0, 4, (B, N), generator=g).float() / 1024.0
+    elif fam == "masked_huge":
+        x = torch.randn(B, N, generator=g) * 3  # infeasible entries get finite logits ~1e8 below (unbounded scorers)
     else:
         raise ValueError(fam)
     x = torch.round(x * q) / q  # exactly representable, so exact shifts exist
@@ -102,6 +104,9 @@ def make_logits(case):
     # at least one feasible action per row
     none = ~mask.any(-1)
     mask[none, torch.randint(0, N, (int(none.sum()),), generator=g)] = True
+    if fam == "masked_huge":
+        big = torch.randint(1, 10, (B, N), generator=g).float() * 1e8 * (torch.randint(0, 2, (B, N), generator=g).float() * 2 - 1)
+        x = torch.where(mask, x, big)
     if fam == "peaked":
         mask[:, 0] = torch.rand(B, generator=g) < 0.5
         none = ~mask.any(-1)
